@@ -48,6 +48,11 @@ const Type& OpEXPExpression::type(Context& ctx) const
     return Value::type_imaginary;
   if (t1 == Type::INTEGER && t2 == Type::INTEGER)
     return Value::type_integer;
+  if (t1 == Type::NUMERIC || t2 == Type::NUMERIC)
+    return Value::type_numeric;
+  /* an opaque operand: the result is integer or decimal at run time */
+  if (t1 == Type::NO_TYPE || t2 == Type::NO_TYPE)
+    return Value::type_no_type;
   return Value::type_numeric;
 }
 
